@@ -111,21 +111,67 @@ def r_fit(ctx: Ctx, model):
             ctx.ob(okw, Finding("C12.F-protocol", fit.where, f"fit|{calc}|write-back",
                                 f"fitted parameters stored: {I.describe(o.attrs['params'])}; required res.x in the order {names}"),
                    nontrivial_key=("fit", calc, "wb"))
-            rng = ("lr1", "lr0") if calc == "loading" else ("pr1", "pr0")
-            rm = I.describe(o.attrs["rmse"])
-            okm = "RES" in rm and "sqrt(" in rm and "sum(" in rm and f"len(" in rm and rng[0] in rm and rng[1] in rm and \
-                not any(x in rm for x in (("pr0", "pr1") if calc == "loading" else ("lr0", "lr1")))
-            ctx.ob(okm, Finding("C12.F-rmse", fit.where, f"fit|{calc}|rmse",
-                                f"rmse is computed as {rm}; required sqrt(sum(res.fun**2)/len(data)) / ({rng[0]} - {rng[1]}) - the range of the "
-                                f"calculated quantity ({calc})"),
-                   nontrivial_key=("fit", calc, "rmse"), sample={"rule": "F-rmse", "rmse": rm})
         ctx.floor(f"fit paths ({calc})", npaths, 3)
-    # Virial
+    r_rmse(ctx, model)
+
+
+def r_rmse(ctx: Ctx, model):
+    """the reported error, computed symbolically on a three-point fit: sqrt(mean(res.fun^2)) / range of the calculated quantity"""
+    import sympy as sp
+    from ..libsum import Vec, install_vec
+    ctx.rule("F-rmse: fit() on three symbolic points: rmse == sqrt((r0^2+r1^2+r2^2)/3) / (range of the calculated quantity), "
+             "with r the residual vector of the returned optimiser result (any algebraically equal spelling accepted)")
+    S = lambda nm, **kw: sp.Symbol(nm, **(kw or {"positive": True}))
+    r = [S(f"r{i}", real=True) for i in range(3)]
+    fit = model.func(f"{BM}.fit")
+    ci = model.cls("pygaps.modelling.langmuir.Langmuir")
+    for calc in ("loading", "pressure"):
+        I = make_interp(model)
+        install_vec(I)
+        I.sympy_mode = True
+        I.ext["numpy.sqrt"] = lambda I, a, k, n: sp.sqrt(a[0])
+        I.ext["numpy.mean"] = lambda I, a, k, n: sum(a[0].items) / len(a[0].items) if isinstance(a[0], Vec) else a[0]
+        I.ext["numpy.square"] = lambda I, a, k, n: Vec([x**2 for x in a[0].items]) if isinstance(a[0], Vec) else a[0]**2
+        I.ext["numpy.array"] = lambda I, a, k, n: a[0] if isinstance(a[0], Vec) else Vec(list(a[0]))
+        I.ext["numpy.linalg.norm"] = lambda I, a, k, n: sp.sqrt(sum(x**2 for x in a[0].items))
+        I.ext["scipy.optimize.least_squares"] = lambda I, a, k, n: Obj(kind="OptRes", label="res", attrs={
+            "x": Vec([S("ra"), S("rb")]), "fun": Vec(list(r)), "success": True, "message": "m", "cost": sum(x**2 for x in r) / 2})
+        o = Obj(cls=ci, label="model", attrs={
+            "params": {"K": S("K0"), "n_m": S("N0")}, "param_bounds": {"K": (sp.Integer(0), sp.Integer(100)), "n_m": (sp.Integer(0), sp.Integer(6))},
+            "pressure_range": (S("pr0"), S("pr1")), "loading_range": (S("lr0"), S("lr1")), "rmse": None, "calculates": calc, "name": "Langmuir"})
+        P, L = Vec([S(f"p{i}") for i in range(3)]), Vec([S(f"l{i}") for i in range(3)])
+        outs = I.explore(lambda I: I.call_func(fit, [P, L, {"K": S("gK"), "n_m": S("gN")}], {}, None, self_obj=o))
+        rng = (S("lr1") - S("lr0")) if calc == "loading" else (S("pr1") - S("pr0"))
+        want = sp.sqrt(sum(x**2 for x in r) / 3) / rng
+        got = o.attrs.get("rmse")
+        ok = len(outs) == 1 and outs[0].kind == "ok" and isinstance(got, sp.Basic) and sp.simplify(got - want) == 0
+        ctx.ob(ok, Finding("C12.F-rmse", fit.where, f"fit|{calc}|rmse",
+                           f"rmse of a three-point fit is {got}; required {want} - root mean square of the result's residuals over the range of the "
+                           f"calculated quantity ({calc}); outcome {outs[:1] if not (outs and outs[0].kind == 'ok') else 'ok'}"),
+               nontrivial_key=("fit", calc, "rmse"), sample={"rule": "F-rmse", "rmse": str(got)})
+    # Virial: the statement that assigns self.rmse, evaluated on a three-point residual
     vfit = model.func("pygaps.modelling.virial.Virial.fit")
-    src = ast.unparse(vfit.node)
-    ctx.ob("self.rmse = numpy.sqrt(numpy.sum(opt_res.fun ** 2) / len(loading))" in src and "self.fit_leastsq(kwargs)" in src,
-           Finding("C12.F-rmse", vfit.where, "virial|rmse", "Virial.fit must report sqrt(sum(res.fun**2)/len(loading)) of its linearised residual"),
-           nontrivial_key=("virial",))
+    stores = [st for st in ast.walk(vfit.node) if isinstance(st, ast.Assign) and any(ast.unparse(t) == "self.rmse" for t in st.targets)]
+    ctx.floor("assignments to self.rmse in Virial.fit", len(stores), 1)
+    for st in stores:
+        I = make_interp(model)
+        install_vec(I)
+        I.sympy_mode = True
+        I.ext["numpy.sqrt"] = lambda I, a, k, n: sp.sqrt(a[0])
+        I.ext["numpy.mean"] = lambda I, a, k, n: sum(a[0].items) / len(a[0].items)
+        env = {"__module__": vfit.module.name if hasattr(vfit, "module") else "pygaps.modelling.virial",
+               "opt_res": Obj(kind="OptRes", label="res", attrs={"fun": Vec(list(r)), "x": Vec([S("ra")])}),
+               "loading": Vec([S(f"l{i}") for i in range(3)]), "pressure": Vec([S(f"p{i}") for i in range(3)])}
+        try:
+            I.reset([])
+            env = I.module_env(vfit, env) if hasattr(I, "module_env") else env
+            got = I.eval(st.value, env)
+        except Exception as e:  # noqa: BLE001 - reported as an undecidable construct, not as a violation
+            raise AnalysisError(f"Virial.fit: cannot evaluate `{ast.unparse(st.value)}` on a symbolic residual: {e}")
+        want = sp.sqrt(sum(x**2 for x in r) / 3)
+        ctx.ob(isinstance(got, sp.Basic) and sp.simplify(got - want) == 0,
+               Finding("C12.F-rmse", vfit.where, "virial|rmse", f"Virial.fit reports rmse = {got}; required {want} (root mean square of the residual of its fit)"),
+               nontrivial_key=("virial",))
 
 
 def r_best(ctx: Ctx, model):
